@@ -1782,7 +1782,7 @@ fn phased(base: usize, kind: u32) -> Obs {
 /// its own, then B as before. B's log must be identical: whatever A went through, nothing of it may be left in the
 /// operator value (flags, latches, counters, and the captured state of user closures, which each subscription must
 /// get as a fresh clone).
-fn c13_successive(k: usize) {
+fn c13_successive(k: usize, only_stateful: bool) {
   use crate::cat::Op2;
   let unary = {
     let mut v = model::C03_OPS.to_vec();
@@ -1791,7 +1791,7 @@ fn c13_successive(k: usize) {
   };
   let nstate = 4usize;
   let nbin = crate::cat::OPS2.len();
-  let which = e::choose((nstate + nbin + unary.len()) as u32) as usize;
+  let which = if only_stateful { e::choose(nstate as u32) as usize } else { nstate + e::choose((nbin + unary.len()) as u32) as usize };
   let p = if which >= nstate + nbin { Some(draw_params(unary[which - nstate - nbin], k as u32, 10)) } else { None };
   let kinds = [e::choose(2), e::choose(2)];
   let name = if which < nstate {
@@ -1905,11 +1905,21 @@ pub fn harnesses4() -> Vec<HarnessDef> {
     props: vec!["C13"],
     about: "successive subscriptions of clones of one operator value: the second one's log does not depend on what the first one went through (errors included); every unary and two-input operator over handle and Subject inputs, and map / filter_map / combine_latest / take_while with stateful FnMut closures",
     bounds: |t| format!("{} events for the first and {} for the second subscription; inputs created per subscription", if t { 4 } else { 3 }, if t { 4 } else { 3 }),
-    f: Box::new(|t| c13_successive(if t { 4 } else { 3 })),
+    f: Box::new(|t| c13_successive(if t { 4 } else { 3 }, false)),
     budget_quick: 600_000,
     budget_thorough: 40_000_000,
     thorough_only: false,
     sampled: true,
+  }, HarnessDef {
+    id: "c13_stateful",
+    props: vec!["C13"],
+    about: "map / filter_map / combine_latest / take_while with stateful FnMut closures: a second subscription of a clone starts from the closure's state at build time, whatever an earlier subscription did to its own copy",
+    bounds: |t| format!("{} events for the first and {} for the second subscription, exhaustive", if t { 4 } else { 3 }, if t { 4 } else { 3 }),
+    f: Box::new(|t| c13_successive(if t { 4 } else { 3 }, true)),
+    budget_quick: 2_000_000,
+    budget_thorough: 40_000_000,
+    thorough_only: false,
+    sampled: false,
   }, HarnessDef {
     id: "c13_twin",
     props: vec!["C13"],
